@@ -4,10 +4,14 @@ package props
 
 import (
 	"fmt"
+	"io/fs"
 	"sort"
 	"strings"
+	"sync"
 
 	"pgregory.net/rapid"
+
+	"github.com/bufbuild/protocompile/wellknownimports"
 )
 
 // PFile is one generated proto source file. Imports is what the text says; it
@@ -22,6 +26,26 @@ type PFile struct {
 type CompileWL struct {
 	Files   []PFile  `json:"files"`
 	Defects []string `json:"defects,omitempty"` // what was deliberately broken, for the reader
+	// DescriptorOverride makes the resolver supply its own source for
+	// google/protobuf/descriptor.proto ("valid": the real text; "broken": the
+	// real text plus a syntax error). Every file then implicitly depends on it.
+	DescriptorOverride string `json:"descriptor_override,omitempty"`
+}
+
+var (
+	descriptorProtoOnce sync.Once
+	descriptorProtoText string
+)
+
+func descriptorProtoSource() string {
+	descriptorProtoOnce.Do(func() {
+		b, err := fs.ReadFile(wellknownimports.FS(), "google/protobuf/descriptor.proto")
+		if err != nil {
+			panic(err)
+		}
+		descriptorProtoText = string(b)
+	})
+	return descriptorProtoText
 }
 
 func (w *CompileWL) names() []string {
@@ -36,6 +60,12 @@ func (w *CompileWL) sources() map[string]string {
 	m := map[string]string{}
 	for _, f := range w.Files {
 		m[f.Name] = f.Text
+	}
+	switch w.DescriptorOverride {
+	case "valid":
+		m["google/protobuf/descriptor.proto"] = descriptorProtoSource()
+	case "broken":
+		m["google/protobuf/descriptor.proto"] = descriptorProtoSource() + "\nmessage {\n"
 	}
 	return m
 }
@@ -57,6 +87,13 @@ type fileSpec struct {
 	rawImps []string // extra imports by name (missing files, cycles, opts)
 	body    []string
 	useOpts bool
+	wkt     []int // indexes into wktPool: well-known files imported (resolved as ready-made descriptors)
+}
+
+var wktPool = []struct{ path, typ string }{
+	{"google/protobuf/timestamp.proto", ".google.protobuf.Timestamp"},
+	{"google/protobuf/duration.proto", ".google.protobuf.Duration"},
+	{"google/protobuf/any.proto", ".google.protobuf.Any"},
 }
 
 var pkgPool = []string{"", "p", "p.q", "r", "p.q.s"}
@@ -103,6 +140,13 @@ func genCompileWLKinds(t *rapid.T, maxFiles int, kinds []int) CompileWL {
 				s.imports = append(s.imports, j)
 				if rapid.IntRange(0, 3).Draw(t, "pub") == 0 {
 					s.public[j] = true
+				}
+			}
+		}
+		if rapid.IntRange(0, 2).Draw(t, "wkt") == 0 {
+			for k := range wktPool {
+				if rapid.IntRange(0, 1).Draw(t, "wktImp") == 0 {
+					s.wkt = append(s.wkt, k)
 				}
 			}
 		}
@@ -185,6 +229,10 @@ func genCompileWLKinds(t *rapid.T, maxFiles int, kinds []int) CompileWL {
 				msg = append(msg, fmt.Sprintf("  %s%s a%d = %d;", label, fq(specs[j].pkg, fmt.Sprintf("M%d", j)), j, fieldNo))
 				fieldNo++
 			}
+		}
+		for _, k := range s.wkt {
+			msg = append(msg, fmt.Sprintf("  %s%s w%d = %d;", label, wktPool[k].typ, k, fieldNo))
+			fieldNo++
 		}
 		msg = append(msg, fmt.Sprintf("  %sint32 n = %d;", label, fieldNo))
 		if s.syntax != "proto3" {
@@ -303,6 +351,10 @@ func genCompileWLKinds(t *rapid.T, maxFiles int, kinds []int) CompileWL {
 			b.WriteString("import \"opts.proto\";\n")
 			imps = append(imps, "opts.proto")
 		}
+		for _, k := range s.wkt {
+			fmt.Fprintf(&b, "import %q;\n", wktPool[k].path)
+			imps = append(imps, wktPool[k].path)
+		}
 		for _, part := range s.body {
 			b.WriteString(part)
 			b.WriteString("\n")
@@ -311,6 +363,15 @@ func genCompileWLKinds(t *rapid.T, maxFiles int, kinds []int) CompileWL {
 	}
 	if f, ok := extra["opts.proto"]; ok {
 		wl.Files = append(wl.Files, f)
+	}
+	switch rapid.IntRange(0, 11).Draw(t, "descriptorOverride") {
+	case 0, 1:
+		wl.DescriptorOverride = "valid"
+	case 2:
+		if defects {
+			wl.DescriptorOverride = "broken"
+			wl.Defects = append(wl.Defects, "the resolver's own descriptor.proto has a syntax error")
+		}
 	}
 	return wl
 }
